@@ -37,13 +37,19 @@ def mk_heap(src, log):
         return None
     h = H.Heap(src.mod(PM), field_alias={'_previous_node': 'previous_node'}, extra_modules=[src.mod('_util'), src.mod('_deb822_repro.tokens')],
                opaque_ctors={'Deb822WhitespaceToken'}, hooks={'_strI': strI, '._add_final_newline_if_missing': newline_hook,
-                                                              '.add_final_newline_if_missing': value_newline_hook})
+                                                              '.add_final_newline_if_missing': value_newline_hook,
+                                                              '.remove_newline': lambda it, a, k: (it.h.touch(a[0].name), it.h.objs[a[0].name].__setitem__('newline_token', None), None)[2],
+                                                              '.clear_parent_if_parent': lambda it, a, k: None})
     return h
 
 
 def mk_kv(heap, name, tag):
     tok = heap.alloc('Deb822FieldNameToken', {'text': name}, name='@tok_%s' % tag)
-    return heap.alloc('KV', {'field_name': name, 'field_token': tok, 'parent_element': None, 'value_element': heap.alloc('VE', {}, name='@ve_%s' % tag)}, name='@kv_%s' % tag)
+    # the value: one line that ends with its newline token (the token is dropped by a scenario for "the unterminated last field")
+    nl = heap.alloc('Deb822NewlineAfterValueToken', {'text': '\n', 'parent_element': None}, name='@nl_%s' % tag)
+    vl = heap.alloc('VL', {'newline_token': nl}, name='@vl_%s' % tag)
+    ve = heap.alloc('VE', {'value_lines': heap.new_list([vl], '@vls_%s' % tag)}, name='@ve_%s' % tag)
+    return heap.alloc('KV', {'field_name': name, 'field_token': tok, 'parent_element': None, 'value_element': ve}, name='@kv_%s' % tag)
 
 
 def build_dup(heap, names):
@@ -359,11 +365,19 @@ def r_nodup(rep, src):
         return order, elems, problems
     cases = [('order_first', [C], ['c', 'a', 'b'], True), ('order_last', [A2], ['b', 'c', 'a'], True), ('order_before', [C, A], ['c', 'a', 'b'], True),
              ('order_after', [A, C], ['b', 'c', 'a'], True), ('order_before', [A, (A2, 0)], 'ValueError', False),
-             ('remove_kvpair_element', [B], ['a', 'c'], False), ('remove_kvpair_element', [Z], 'KeyError', False)]
+             ('remove_kvpair_element', [B], ['a', 'c'], False), ('remove_kvpair_element', [Z], 'KeyError', False),
+             ('remove_kvpair_element', [C, 'unterminated'], ['a', 'b'], False)]
     for op, args, want, needs_nl in cases:
         log = []
         heap = mk_heap(src, log)
         para, lst, d = build(heap)
+        open_last = args[-1] == 'unterminated'
+        if open_last:
+            # the removed field is the last line of a document without final newline
+            args = args[:-1]
+            heap.objs['@vl_c0']['newline_token'] = None
+        others = lambda: {nm: dict(o_) for nm, o_ in heap.objs.items() if nm.startswith(('@vl_', '@ve_', '@nl_')) and not nm.endswith('_%s0' % (args[0].cls if args and isinstance(args[0], H.Key) else '?'))}
+        others_before = others() if op == 'remove_kvpair_element' else None
         fn, it, clo, a = run_method(src, heap, para, NOD, op, args)
         rep.saw_func(fn)
         what = '%s(%s) on unique fields [A B C]' % (op, ', '.join(repr(x) for x in args))
@@ -390,6 +404,11 @@ def r_nodup(rep, src):
         nl = [e for e in log if e[0] == 'newline']
         if needs_nl and not (nl and nl[0][2] == v0):
             problems.append('fields are moved without first supplying the final newline of the last field')
+        if others_before is not None and others() != others_before:
+            changed = sorted(nm for nm, o_ in others().items() if o_ != others_before.get(nm))
+            problems.append('deleting %s%s changes another field (%s): a deletion only takes the field\'s own lines away%s' % (
+                args[0].spelling, ' (the unterminated last field)' if open_last else '', ', '.join(changed),
+                '; the field that is now last loses its line end although the separator of the next paragraph may follow it' if open_last else ''))
         if problems:
             rep.fail('C10.R1' if not any('newline' in p for p in problems) else 'C10.R3', fn.site, what, '; '.join(problems), where=fn.where)
         else:
